@@ -13,11 +13,11 @@ spec fn slot_default() -> Slot { Slot { state: SyncState::Idle, resync: false } 
 /// abstract value of `NamespaceStates`
 ghost struct StatesView {
     /// documents in the sync set
-    syncing: Set<NamespaceId>,
+    syncing: ISet<NamespaceId>,
     /// existing (document, peer) slots; a missing slot behaves like `slot_default()` (it is created on first use)
-    slots: Map<(NamespaceId, PublicKey), Slot>,
+    slots: IMap<(NamespaceId, PublicKey), Slot>,
     /// `may_emit_ready` per document
-    ready: Map<NamespaceId, bool>,
+    ready: IMap<NamespaceId, bool>,
 }
 
 spec fn slot_at(v: StatesView, ns: NamespaceId, node: PublicKey) -> Slot {
